@@ -7,6 +7,7 @@ import (
 	"github.com/go-faster/jx"
 	custom_errors "github.com/metrico/qryn/writer/utils/errors"
 
+	"math"
 	"strconv"
 )
 
@@ -99,12 +100,11 @@ func (z *zipkinDecoderV2) decodeSpan(rawSpan jx.Raw) error {
 			return err
 		case "timestamp":
 			var err error
-			z.timestampNs, err = z.stringOrInt64(d)
-			z.timestampNs *= 1000
+			z.timestampNs, err = usToNs(z.stringOrInt64(d))
 			return err
 		case "duration":
-			val, err := z.stringOrInt64(d)
-			z.durationNs = val * 1000
+			var err error
+			z.durationNs, err = usToNs(z.stringOrInt64(d))
 			return err
 		case "name":
 			var err error
@@ -147,11 +147,28 @@ func (z *zipkinDecoderV2) decodeSpan(rawSpan jx.Raw) error {
 		z.name, z.serviceName, z.payload, z.key, z.val)
 }
 
+// usToNs converts Zipkin microseconds to nanoseconds; a value that does not fit int64 nanoseconds is refused
+// (the product used to wrap around silently)
+func usToNs(us int64, err error) (int64, error) {
+	if err != nil {
+		return 0, err
+	}
+	if us > math.MaxInt64/1000 || us < math.MinInt64/1000 {
+		return 0, custom_errors.New400Error("timestamp or duration out of range")
+	}
+	return us * 1000, nil
+}
+
 func (z *zipkinDecoderV2) stringOrInt64(d *jx.Decoder) (int64, error) {
 	next := d.Next()
 	switch next {
 	case jx.Number:
-		return d.Int64()
+		// not d.Int64(): jx v1.1.0 wraps around on some integers above 2^64 instead of reporting an overflow
+		raw, err := d.Raw()
+		if err != nil {
+			return 0, custom_errors.NewUnmarshalError(err)
+		}
+		return strconv.ParseInt(string(raw), 10, 64)
 	case jx.String:
 		str, err := d.Str()
 		if err != nil {
